@@ -46,3 +46,21 @@ def sched_features(sched, w):
         if w.sched.switches:
             f.add("context-switches")
     return f
+
+
+HOLD_THREADS = ["transport_layer_thread", "recv_message_monitor", "PSM", "consumer-0", "consumer-1", "submitter-0", "submitter-1", "closer"]
+HOLD_KINDS = ["lock.acquire", "lock.release", "event.set", "event.clear", "event.wait", "queue.put", "queue.get", "queue.empty",
+              "selector.select", "selector.modify", "sock.recv", "sock.send", "sleep"]
+
+
+def holds(max_n=2):
+    """targeted delays: thread T pauses at its n-th visit of a point of kind K for d virtual seconds"""
+    one = st.builds(lambda t, k, n, d: [t, k, n, d], st.sampled_from(HOLD_THREADS), st.sampled_from(HOLD_KINDS), st.integers(1, 6),
+                    st.sampled_from([0.001, 0.02, 0.3]))
+    return st.one_of(st.just([]), st.just([]), st.lists(one, min_size=1, max_size=max_n))
+
+
+def apply_holds(world, holds_):
+    for t, k, n, d in holds_ or []:
+        name = f"{world.role}_psm_thread" if t == "PSM" else t
+        world.sched.hold(name, k, n, lambda: False, d)
